@@ -4,7 +4,7 @@
     the registry invariant (an entry always points at a live registering call of that generation
     with that key), uniqueness of the holder of every inbound frame, and well-formedness of the
     inbound queue.  [exec_inv] : every enabled action preserves it — for the repaired step function
-    unconditionally, for the current one under [benign] (no control response is routed into a data
+    unconditionally, for the original one under [benign] (no control response is routed into a data
     waiter; this is exactly the defect class of DESIGN.md §5 #2). *)
 From Coq Require Import ZArith Bool List Lia.
 From GoSecs Require Import Hsms.SendCore.
@@ -115,7 +115,7 @@ Record CallOK (s : state) (c : call) : Prop := mkCallOK {
   ck_reg : c_pc c = PReg -> needs_reg c = true;
   ck_enq : c_pc c = PEnq -> c_kind c <> KSync;
   ck_chan : forall r, c_chan c = Some r -> cres_ok s (f_sys (c_msg c)) r;
-  ck_nil : fx = false -> c_kind c = KSync -> forall n f, c_chan c = Some (CMsg n f) -> f_st f = 0;
+  ck_nil : (fx = false \/ DW p = true) -> c_kind c = KSync -> forall n f, c_chan c = Some (CMsg n f) -> f_st f = 0;
   ck_exit : forall r, c_pc c = PExit r -> res_ok s c r
 }.
 
